@@ -1,5 +1,22 @@
 /-
-Whole-program forms of C08, C13, C10, C07 for TLS (HEADER REWRITTEN AT THE END)
+Whole-program forms of C08, C13, C10, C07 for TLS: theorems about what `run()` hands to the writer
+(`TLX.Export.framesFrom`, which `exportFile` serialises), lifting the per-connection results of `Props/C01Pipeline`
+through the demultiplexer of `TLX.MainLoop` and (C08) the read loop of `TLX.Ingest`.
+
+Vocabulary (`Lemmas/ExportProps`): `optsOf args` the options the loop runs with; `tlsConvs o xs` the TLS conversation
+objects of a run in creation order; `keysOf fk xs` the key log at the end of the run (`-s` file, then DSB items);
+`tlsFrames o fk xs` the exported frames conversation by conversation; `framesFrom_ok`: the output of `framesFrom` is
+`(tlsFrames …).flatten ++ QUIC part`. `ListExt R x y`: `y` extends `x` element by element (related by `R`), more at the end.
+
+1. C08  `cut_sessions_prefix` (demux of a cut capture), `export_cut_prefix_tls_items`, `export_cut_prefix_tls`
+        (`framesFrom` level), `export_cut_prefix_tls_ingest` (through `Ingest.itemsWith`, both containers, stated on what
+        the reader yields for the two files). Hypothesis `hkeys`: no DSB key material in the removed suffix — NEEDED:
+        `Ex.cut_before_late_dsb_not_prefix`, replayed on the real tool (`harness/export_props_replay.py`).
+        Not done: the byte-level fact "a pcap / pcapng file cut after its k-th record makes `Container.readPrefix`
+        yield the first k items" (the hypotheses `hfull`, `hcut` of `export_cut_prefix_tls_ingest`).
+2. C13  `export_meta_only_adds_items`      3. C10  `export_ports_tls_items`      4. C07  `export_time_and_ends_tls_items`
+All for EVERY capture item list, key log, options, hash suite, cipher primitives; QUIC items, DSBs, foreign and ignored
+frames may be mixed in anywhere (no restriction to TCP-only captures was needed).
 -/
 import TLX.Lemmas.ExportProps
 set_option linter.unusedSimpArgs false
@@ -61,6 +78,84 @@ theorem export_cut_prefix_tls (prior : Prior) (args : Args) (fk : Option (List K
   rw [h1] at hc
   rw [h2] at hf
   refine ⟨_, _, qc, qf, (Except.ok.inj hc).symm, (Except.ok.inj hf).symm, export_cut_prefix_tls_items H P info o fk xs n hkeys⟩
+
+theorem classify_tls (o : Opts) (q p : Pkt) (h : classify o (Item.frame q : Item Keylog.Key) = .tls p) : p = q := by
+  simp only [classify] at h
+  cases hq : q.l4 with
+  | tcp =>
+    rw [hq] at h
+    simp only at h
+    by_cases h1 : q.payload.length = 0
+    · simp [h1] at h
+    · by_cases h2 : (o.checksumTest && !q.csumOk) = true
+      · simp [h1, h2] at h
+      · simp [h1, h2] at h; exact h.symm
+  | udp =>
+    rw [hq] at h
+    simp only at h
+    cases hp : q.payload with
+    | nil => rw [hp] at h; cases h
+    | cons b0 r =>
+      rw [hp] at h
+      simp only at h
+      by_cases h2 : (o.checksumTest && !q.csumOk) = true
+      · simp [h2] at h
+      · by_cases h3 : ((b0.toNat &&& 0x40) >>> 6 = 1 || o.greasy) = true <;> simp [h2, h3] at h
+  | other => rw [hq] at h; cases h
+
+/-- a TLS-relevant TCP packet of the capture is one of its frame items -/
+theorem mem_tcpView_frame (o : Opts) (xs : List (Item Keylog.Key)) (p : Pkt) (h : p ∈ tcpView o xs) :
+    Item.frame p ∈ xs := by
+  simp only [tcpView, List.mem_filterMap] at h
+  obtain ⟨it, hit, hc⟩ := h
+  cases it with
+  | dsb ks => simp [classify] at hc
+  | frame q =>
+    cases hcl : classify o (Item.frame q : Item Keylog.Key) with
+    | tls p' =>
+      rw [hcl] at hc
+      simp only [Option.some.injEq] at hc
+      subst hc
+      rw [classify_tls o q p' hcl]; exact hit
+    | keys ks => rw [hcl] at hc; cases hc
+    | quic a b c => rw [hcl] at hc; cases hc
+    | ignore w => rw [hcl] at hc; cases hc
+
+/-- **C08, whole program, through the ingest model.** `file` is a capture the reader gets through without an exception,
+    yielding the container items `its`; `cut` is a file of the same container for which the reader yields the first `k`
+    of them (the capture cut after its `k`-th packet / DSB record or block). Then the read loop turns `cut` into exactly
+    the first `k` main-loop items of `file` (one per container item, DSBs count) with the same per-packet data, and — if no
+    key material sits in the removed part — the TLS conversations exported from `cut` are, one by one in creation order,
+    frame-by-frame prefixes of those exported from `file`. Any container (`legacy` = libpcap, else pcapng), options, key
+    log file, primitives. -/
+theorem export_cut_prefix_tls_ingest (legacy : Bool) (file cut : Bytes) (its : List Container.Item) (k : Nat)
+    (hfull : Container.readPrefix legacy file = .ok (its, none))
+    (hcut : Container.readPrefix legacy cut = .ok (its.take k, none))
+    (c : Bool) (xs : List (Item Keylog.Key)) (is : List (Nat × Pipeline.Info))
+    (hi : Ingest.itemsWith Keylog.srcHexClass c legacy file = .ok (xs, is))
+    (o : Opts) (fk : Option (List Keylog.Key)) (hkeys : dsbOnly (xs.drop k) = []) :
+    ∃ is', Ingest.itemsWith Keylog.srcHexClass c legacy cut = .ok (xs.take k, is') ∧
+      ListExt (fun fa fb : List Pipeline.OutPkt => fa <+: fb)
+        (tlsFrames H P (Ingest.lookup is') o fk (xs.take k)) (tlsFrames H P (Ingest.lookup is) o fk xs) := by
+  unfold Ingest.itemsWith at hi
+  rw [hfull] at hi
+  simp only at hi
+  cases hg : Ingest.go Keylog.srcHexClass c 0 its with
+  | error e => rw [hg] at hi; cases hi
+  | ok v =>
+    obtain ⟨X, IS⟩ := v
+    rw [hg] at hi
+    simp only [Except.ok.injEq, Prod.mk.injEq] at hi
+    obtain ⟨rfl, rfl⟩ := hi
+    obtain ⟨IS', g1, g2, g3⟩ := go_take Keylog.srcHexClass c its 0 k X IS hg
+    refine ⟨IS', by unfold Ingest.itemsWith; rw [hcut]; simp only [g1], ?_⟩
+    have hcongr : tlsFrames H P (Ingest.lookup IS') o fk (X.take k) = tlsFrames H P (Ingest.lookup IS) o fk (X.take k) := by
+      apply tlsFrames_info_congr
+      intro p hp
+      obtain ⟨i, hi⟩ := g3 p (mem_tcpView_frame o _ p hp)
+      exact lookup_prefix IS' IS g2 p.tag i hi
+    rw [hcongr]
+    exact export_cut_prefix_tls_items H P (Ingest.lookup IS) o fk X k hkeys
 
 -- ====================================================================== 2. C13: `-a` only adds
 /-- **C13, whole program, items level.** The same capture, key log and options, once without and once with `-a`:
